@@ -162,6 +162,25 @@ CLAIMED["C12"]["text"] = CLAIMED["C12"]["text"].replace("The path re-ordering cl
     "k-points returned modulo lattice vectors, symbolic values: the result is in path order and row j carries path point j's own value. "
     "get_ray_runtime_env: the driver's package directory is shipped exactly once for every user runtime_env variant.")
 
+CLAIMED["C10"] = dict(
+    text="run_grid.run composed with run_grid.process (both real text, extracted on every run) executed for EVERY refinement history of "
+         "small size with SYMBOLIC per-K results: 2-4 initial K-points (incl. weights far below 1e-6), 0-2 (quick) / 3 (thorough) refinement "
+         "iterations, every choice of the refined point, every merge pattern allowed by exclude_equiv_points' contract (no merge / a new "
+         "point absorbed by any earlier point), storage modes memory / dump_results / allow_restart / discarded, with and without symmetry "
+         "reduction; plus restarted runs (restart from the last or an earlier stored iteration, state rebuilt from what the first run "
+         "wrote). At every savedata call and on return: result == sum_i factor_i * result_i over the current list (exact: all weight "
+         "changes in these histories are 0 or far above the 1e-8 cut-off); every point evaluated exactly once; total weight 1; restart "
+         "weights written per iteration equal the current ones. Complete for the stated sizes (per shape), for all result values. "
+         "Bounded stand-in: real run() on a random model with a hooked savedata.",
+    note=TB + "; divide / exclude_equiv_points / get_K_list used through their C06 contracts (2 children per refinement); symmetrize identity; pickle and np.save value round trip")
+
+CLAIMED["C11"]["text"] = CLAIMED["C11"]["text"].replace("The state-reconstruction and continuation clauses are carried by a "
+         "bounded stand-in only:", "State reconstruction and continuation: run()+process() (real text, shared machinery with C10) for every "
+         "refinement/merge history of 2-3 initial points and 1-2 iterations, restarted from the last or an earlier stored iteration and "
+         "restarted a second time: the K-point file holds every K-point once in list order (Klist_part 1, 2, 10), weights are written "
+         "under the global iteration number, the rebuilt state satisfies result == sum factor*result after every later iteration. "
+         "Additionally a bounded stand-in:")
+
 NOT_APPLICABLE = {
     "C20": "real-space symmetrisation is a data-dependent floating-point orbit search over irrep objects; its postcondition is only statable through an eigen-solver, no discrete/algebraic kernel is left once externals are abstracted (DESIGN section 7)",
     "C21": "rotation matrices are produced inside sympy (polynomial expansion + evalf); orthogonality/composition live in that CAS computation, outside any contract this engine can generate VCs for (DESIGN section 7)",
